@@ -76,7 +76,7 @@ RULE = ('Part A: workloads.single_assembly / core_problem over seeds plus '
         'Part B: catalogue of single-fault mutators x base replicas; a case '
         'is non-trivial when its base ran and the mutant outcome was '
         'observed; distinct by mutator id. quick: 60 singles, 6 cores, 24 '
-        'options x 3, 336 mutators x 3 bases (2 for seven-assembly bases, '
+        'options x 3, 360 mutators x 3 bases (2 for seven-assembly bases, '
         'small bundles of 2-4 rings, 0.5 m); thorough: 1200 singles, 100 '
         'cores (up to 19 assemblies), options x 24, mutators x 24 on bases '
         'of 2-6 rings, plus the -inf literals.')
@@ -451,6 +451,16 @@ def _o_fuel(P, T, rng):
 @option('dummy_pin', needs=('nolf',))
 def _o_dummy(P, T, rng):
     P['types'][T]['dummy_pin'] = [1]
+
+
+@option('duct_pairs_reversed')
+def _o_revpairs(P, T, rng):
+    _reverse_pairs(P)
+
+
+@option('duct_pairs_reversed_two_ducts', needs=('duct2',))
+def _o_revpairs2(P, T, rng):
+    _reverse_pairs(P)
 
 
 @option('htc_params_duct')
@@ -964,7 +974,7 @@ def _m_dp4(P, T, rng):
         rng.uniform(0.0, 0.003))
     for tt in P['types'].values():
         f = list(tt['duct_ftf'])
-        f[-1] += grow
+        f[f.index(max(f))] += grow
         tt['duct_ftf'] = f
 
 
@@ -978,7 +988,7 @@ def _m_dodd(P, T, rng):
      'reject')
 def _m_dzero(P, T, rng):
     f = list(P['types'][T]['duct_ftf'])
-    f[0] = f[1]
+    f[f.index(min(f))] = max(f[:2])
     P['types'][T]['duct_ftf'] = f
 
 
@@ -988,7 +998,7 @@ def _m_dzero(P, T, rng):
 def _m_dover(P, T, rng):
     f = list(P['types'][T]['duct_ftf'])
     # inner duct outer FTF beyond the outer duct inner FTF
-    f[1] = 0.5 * (f[2] + f[3])
+    f[f.index(max(f[:2]))] = 0.5 * (f[2] + f[3])
     P['types'][T]['duct_ftf'] = f
 
 
@@ -996,7 +1006,7 @@ def _m_dover(P, T, rng):
      'nested ducts touch (zero bypass gap)', 'reject', needs=('duct2',))
 def _m_dtouch(P, T, rng):
     f = list(P['types'][T]['duct_ftf'])
-    f[1] = f[2]
+    f[f.index(max(f[:2]))] = min(f[2:4])
     P['types'][T]['duct_ftf'] = f
 
 
@@ -1028,7 +1038,7 @@ for _d in (1e-6, 1e-5, 1e-4, 1e-3):
      'unequal outer ducts between types', 'reject', needs=('core2',))
 def _m_uneq2(P, T, rng):
     f = list(P['types'][T]['duct_ftf'])
-    f[-1] -= 2e-5
+    f[f.index(max(f))] -= 2e-5
     P['types'][T]['duct_ftf'] = f
 
 
@@ -1806,6 +1816,55 @@ _csv_mut('assembly_without_power', 'assembly has no power rows',
 _csv_mut('unknown_component_id', 'component id not 1..3',
          _e_bad_component, expect='safe')
 
+# ---- the duct faults again, on inputs whose pairs are written "outer, inner"
+for _m in list(CATALOG):
+    if _m['id'].startswith(('duct_ge_pitch:', 'duct_zero_wall', 'duct_overlap',
+                            'duct_zero_bypass_gap', 'pins_misfit:duct_shrunk',
+                            'outer_duct_unequal:wall_only',
+                            'outer_duct_unequal:smaller_by_1e-05',
+                            'Assembly/duct_ftf[')):
+        _t = dict(_m)
+        _t['id'] = _m['id'] + ':reversed_pairs'
+        _t['fault'] = _m['fault'] + ' (pairs written outer, inner)'
+        _t['needs'] = tuple(_m['needs']) + ('revpairs',)
+        CATALOG.append(_t)
+
+
+# ---- power profile with no negative coefficient that is negative inside
+#      the cell (odd term steep enough), per component and order
+def _e_neg_inside(comp, order):
+    def e(rows, P, rng):
+        idx = _sel(rows, 1, comp)
+        if not idx:
+            raise RuntimeError('mutator: component %d absent' % comp)
+        ncoef = max(len(rows[0]) - 5, order + 1)
+        for r in rows:
+            # same number of columns everywhere, no negative coefficient
+            # anywhere (the generated profiles stay positive: the higher
+            # terms are bounded by 0.9 c0 in absolute value)
+            c = [abs(float(x)) for x in r[5:]]
+            c += [0.0] * (ncoef - len(c))
+            r[5:] = [repr(x) for x in c]
+        nz = [i for i in idx if float(rows[i][5]) > 0.0]
+        if not nz:
+            raise RuntimeError('mutator: zero power base')
+        i = nz[int(rng.integers(len(nz)))]
+        c0 = float(rows[i][5])
+        c = [c0] + [0.0] * (ncoef - 1)
+        # p(-1/2) = c0 - k c0 / 2**order = -c0 / 2
+        c[order] = 1.5 * c0 * 2 ** order
+        rows[i][5:] = [repr(x) for x in c]
+        return rows
+    return e
+
+
+for _c, _cn, _need in ((1, 'pins', ()), (2, 'duct', ('pw_duct',)),
+                       (3, 'coolant', ('pw_cool',))):
+    for _o in (1, 3):
+        _csv_mut('negative_inside_cell_nonneg_coefficients:%s_order%d'
+                 % (_cn, _o), 'negative power', _e_neg_inside(_c, _o),
+                 needs=('pw_pos', 'nolf') + _need)
+
 MUT_BY_ID = {m['id']: m for m in CATALOG}
 assert len(MUT_BY_ID) == len(CATALOG), 'duplicate mutator id'
 
@@ -1880,6 +1939,16 @@ def _needs_ok(P, T, needs):
     return True
 
 
+def _reverse_pairs(P):
+    """Write every duct as "outer FTF, inner FTF": the order inside a pair
+    is free in DASSH input (the two values are sorted downstream)."""
+    for tt in P['types'].values():
+        f = list(tt['duct_ftf'])
+        for d in range(len(f) // 2):
+            f[2 * d], f[2 * d + 1] = f[2 * d + 1], f[2 * d]
+        tt['duct_ftf'] = f
+
+
 def _base_for(case, needs):
     seed = list(case['seed'])
     for k in range(40):
@@ -1887,6 +1956,8 @@ def _base_for(case, needs):
         P, feats, T = make_base(rng, needs,
                                 small=(case.get('tier') != 'thorough'))
         if _needs_ok(P, T, needs):
+            if 'revpairs' in needs:
+                _reverse_pairs(P)
             return P, feats, T, rng
     raise RuntimeError('no base satisfies %r' % (needs,))
 
